@@ -79,7 +79,8 @@ def suffix_circuit():
 
 
 def all_cases(ctx):
-    cs = [(("strip", "suffix-pins"), ("strip", suffix_circuit(), None)), (("strip", "dotted-pins"), ("strip", F.f_bb_dotted()[0][1], None))]
+    cs = [(("strip", "suffix-pins"), ("strip", suffix_circuit(), None))]
+    cs += [(("strip",) + cid, ("strip", s_, None)) for cid, s_ in F.f_bb_dotted()]
     cs += [(("strip",) + cid, ("strip", s_, None)) for cid, s_ in F.f_rand_bb(ctx.seed, 10 if ctx.quick else 80)]
     ch = children(ctx)
     nmaps = 3 if ctx.quick else 6
@@ -252,8 +253,18 @@ def run(ctx):
         # 1. add_subcircuit(child1, u1)
         conn = conn_map(rng, cur, c1, taken)
         hist.append(["add_subcircuit", c1["name"], "u1", conn])
-        if not step("add_subcircuit", lambda: c.add_subcircuit(build(c1), "u1", dict(conn)), ref_add_sub(cur, c1, "u1", conn), "add_subcircuit"):
+        conn_obj = dict(conn)
+        first_ref = ref_add_sub(cur, c1, "u1", conn)
+        if not step("add_subcircuit", lambda: c.add_subcircuit(build(c1), "u1", conn_obj), first_ref, "add_subcircuit"):
             continue
+        # the caller keeps his connection map in a variable and instantiates the child into a second, identically built parent with it
+        c_twin = build(pspec)
+        _, e_twin = call(lambda: c_twin.add_subcircuit(build(c1), "u1", conn_obj))
+        det_twin = {"case": cid, "history": [hist[0], "the same connections dict object used for the same call on a second, identically built parent"], "before": pspec}
+        if e_twin is not None:
+            ctx.side("add_subcircuit-second-parent-raises", False, f"add_subcircuit:raises:{type(e_twin).__name__}", f"add_subcircuit with a connection map used before raised {e_twin!r}", det_twin)
+        else:
+            same_relation(ctx, "add_subcircuit-second-parent", Net.of(c_twin), Net.from_spec(first_ref), det_twin, "add_subcircuit")
         # 2. same child again under another name, fed from the first instance where possible
         conn = conn_map(rng, cur, c1, taken)
         hist.append(["add_subcircuit", c1["name"], "u2", conn])
